@@ -20,7 +20,7 @@ warnings.filterwarnings("ignore")
 
 def main():
     ap = argparse.ArgumentParser()
-    ap.add_argument("cmd", choices=["gen", "judge", "replay", "witness"])
+    ap.add_argument("cmd", choices=["gen", "judge", "judgeall", "replay", "witness"])
     ap.add_argument("module")
     ap.add_argument("--seed", type=int, default=0)
     ap.add_argument("--tier", default="quick")
@@ -29,6 +29,8 @@ def main():
     ap.add_argument("--index", type=int)
     ap.add_argument("--file")
     ap.add_argument("--name")
+    ap.add_argument("--dir")
+    ap.add_argument("--max", type=int, default=600)
     a = ap.parse_args()
     import numpy as np
 
@@ -44,6 +46,35 @@ def main():
         out = dict(case=case, verdict=verdict)
         json.dump(out, open(a.out, "w"), indent=1, default=str)
         print(json.dumps(verdict, default=str))
+    elif a.cmd == "judgeall":
+        # search step when a proof obligation or the correspondence is broken: run the property-level oracle on the
+        # implementation's recorded outputs of (a spread sample of) ALL generated cases, stop at the first violation
+        import glob
+        import time
+
+        t0 = time.time()
+        files = sorted(glob.glob(os.path.join(a.dir, "cases_*.json")))
+        allc = []
+        for f in files:
+            cs = json.load(open(f))
+            allc.extend((f, i, c) for i, c in enumerate(cs))
+        step = max(1, len(allc) // max(1, a.max))
+        judged = 0
+        found = None
+        for f, i, c in allc[::step]:
+            if time.time() - t0 > 600:
+                break
+            try:
+                v = mod.judge(c)
+            except Exception as e:  # noqa: BLE001
+                v = dict(violates=None, detail=f"judge raised {type(e).__name__}: {e}")
+            judged += 1
+            if v.get("violates"):
+                found = dict(case=c, verdict=v, file=os.path.basename(f), index=i)
+                break
+        if found and a.out:
+            json.dump(found, open(a.out, "w"), indent=1, default=str)
+        print(json.dumps(dict(judged=judged, total=len(allc), found=bool(found), detail=(found or {}).get("verdict", {}).get("detail", "")[:300]), default=str))
     elif a.cmd == "replay":
         rep = json.load(open(a.file))
         case = rep.get("canonical_input") or rep.get("case")
